@@ -59,6 +59,8 @@ def traj_equal(a, b):
             return False
         if not np.array_equal(np.asarray(a.lattice), np.asarray(b.lattice)):
             return False
+        if a.coords_are_displacement != b.coords_are_displacement or not np.array_equal(np.asarray(a.coords), np.asarray(b.coords)):
+            return False  # identical trajectory = identical stored representation, not only the same positions mod 1
         return bool(np.array_equal(np.asarray(a.positions), np.asarray(b.positions)))
     except Exception:  # noqa: BLE001
         return False
@@ -107,13 +109,21 @@ def reference(env, variant):
     with faults.recording() as log:
         out = env.load(variant)
     files = faults.final_contents(log)
-    for path, content in files.items():
-        if Path(path).read_bytes() != content:
-            raise HarnessError('bytes reached the disk that the write log did not see')
+    files = {p: c for p, c in files.items() if p.endswith('.cache')}
     on_disk = {str(p): p.read_bytes() for p in env.caches()}
-    if set(on_disk) != set(files):
-        raise HarnessError(f'cache files {sorted(on_disk)} differ from the files of the write log {sorted(files)}')
+    if on_disk != files:
+        # the cache was written through an API the recorder does not see: fall back to the assumption that the
+        # final content is written sequentially to the final path (the statement demands recovery from a
+        # truncation at ANY byte however the file came to be), and say so in the evidence
+        log = []
+        for path, content in on_disk.items():
+            log += [('open', path, 'wb'), ('write', path, content), ('close', path)]
+        files = on_disk
+        reference.fallbacks += 1
     return out, log, files
+
+
+reference.fallbacks = 0
 
 
 def outcome_equal(a, b):
@@ -224,11 +234,13 @@ def run_shard(shard) -> Result:
                 case = {'loader': loader, 'variant': _jsv(variant), 'crash_state_index': k, 'sizes': {Path(p).name: len(c) for p, c in st.items()}}
                 check_recovery(env, variant, ref, files, st, res, 'crash', case)
             if shard['part'] == 0:
-                for gi, g in enumerate(GARBAGE + [next(iter(files.values()))[: len(next(iter(files.values()))) // 2] + b'\xff' * 40]):
+                full = next(iter(files.values()))
+                for gi, g in enumerate(GARBAGE + [full[: len(full) // 2] + b'\xff' * 40, b'\0' * len(full), b'XX' + full[2:]]):
                     st = {p: g for p in files}
                     case = {'loader': loader, 'variant': _jsv(variant), 'garbage_index': gi}
                     check_recovery(env, variant, ref, files, st, res, 'garbage', case)
             res.stats[f'crash_states_{loader}'] += hi - lo
+            res.stats['write_log_incomplete_fallback_to_prefixes'] += reference.fallbacks
             res.stats['cache_file_bytes'] = max(res.stats['cache_file_bytes'], max(len(c) for c in files.values()))
             res.sample({'loader': loader, 'variant': _jsv(variant), 'write_log': [(e[0], Path(e[1]).name, len(e[2]) if e[0] == 'write' else e[2] if e[0] == 'open' else '') for e in log], 'crash_states': n})
         elif kind == 'pairs':
@@ -374,7 +386,8 @@ def replay(case):
                     check_recovery(env, variant, ref, files, st, res, 'crash', case)
                 else:
                     gi = case['garbage_index']
-                    g = GARBAGE[gi] if gi < len(GARBAGE) else next(iter(files.values()))[: len(next(iter(files.values()))) // 2] + b'\xff' * 40
+                    full = next(iter(files.values()))
+                    g = (GARBAGE + [full[: len(full) // 2] + b'\xff' * 40, b'\0' * len(full), b'XX' + full[2:]])[gi]
                     check_recovery(env, variant, ref, files, {p: g for p in files}, res, 'garbage', case)
         finally:
             env.close()
